@@ -32,7 +32,7 @@ class E:
             r = '%s%s' % (self.root[0][0] if self.root[0] != 'local' else '_', self.root[1])
             return r + ''.join('.' + f for f in self.fields)
         if k == 'const':
-            return fmt_const(self.const).replace('const ', '')
+            return fmt_const(self.const).replace('const ', '') + ''.join(self.proj)
         if k == 'call':
             return '%s(%s)%s' % (self.name.rsplit('::', 1)[-1], ', '.join(map(repr, self.args)), sfx)
         if k in ('bin', 'un'):
@@ -192,6 +192,16 @@ class ExprBuilder:
             pl = op['pl']
             return self.place(pl['l'], tuple(proj_key(p) for p in pl['p']) + tuple(proj), d, at)
         if op['k'] == 'const':
+            if proj:
+                names = []
+                for p in proj:
+                    if p == '*':
+                        continue
+                    if isinstance(p, tuple) and p[0] == 'idxv':
+                        names.append('[%s]' % p[1])
+                    else:
+                        names.append(proj_name(p))
+                return E('const', const=op['c'], proj=names)
             return E('const', const=op['c'])
         return E('unknown', name=op['k'])
 
@@ -202,7 +212,21 @@ class ExprBuilder:
         """expression of the i-th argument of a call, evaluated at the call site"""
         return self.operand(call.args[i], at=(call.bb, len(self.body.blocks[call.bb]['st'])))
 
+    def _resolve_indices(self, proj, d, at):
+        if not any(isinstance(p, tuple) and p[0] == 'idx' and len(p) > 1 for p in proj):
+            return proj
+        out = []
+        for p in proj:
+            if isinstance(p, tuple) and p[0] == 'idx' and len(p) > 1:
+                ie = self.place(p[1], (), d + 1, at)
+                v = ie.const_value() if ie.kind == 'const' else None
+                out.append(('idxv', v if v is not None else repr(ie)))
+            else:
+                out.append(p)
+        return tuple(out)
+
     def place(self, local, proj, d=0, at=None):
+        proj = self._resolve_indices(proj, d, at)
         key = (local, proj, at)
         if key in self.memo:
             return self.memo[key]
